@@ -261,6 +261,10 @@ func (l *c02Ledger) live(r int) bool {
 func (w *c02World) readLedger(l *c02Ledger, when string) {
 	for r := 1; r <= c02Pool; r++ {
 		w.read(r, false)
+		// every expiry counts, also the ones issued by the generated maintenance mix of the case
+		if w.tempExpired > l.expired {
+			l.expired = w.tempExpired
+		}
 		if !l.live(r) || w.excused[r] || w.lastC == r {
 			continue
 		}
@@ -619,6 +623,7 @@ func c02RunStepsCase(id int, base string) (res *c02Result) {
 	defer func() {
 		w.st.dead = true
 		w.vm.Close()
+		w.raw.Close()
 		w.db.Close()
 		res.cacheSize = initial
 	}()
